@@ -3,8 +3,12 @@
 
 API (everything random derives from the rng passed in):
 
-  gen_project(rng, n_keys, locales, namespaces=None, wide=False) -> Project
-      .locales (default first), .namespaces (None or list), .keys: list of PKey
+  gen_project(rng, n_keys, locales, namespaces=None, wide=False, inherits=None, gaps=True) -> Project
+      .locales (default first), .namespaces (None or list), .inherits {locale: parent} (written as the `inherits` table of
+      the configuration), .keys: list of PKey.  With gaps=True a non-default locale may leave a key out: value ("absent",)
+      (not in the file) or ("null",) (JSON null), also for a whole sub-key group (`.group_null`: {(locale, group path)} written
+      as `"group": null`; an absent group is simply not written); such a locale shows the value of the first locale of its
+      inherits walk that defines the key, else the default's (effective_locale(project, key, locale)).
       PKey: .id, .path (tuple of idents, the namespace first when there are namespaces), .values {locale: value},
             .vars / .comps (sorted union over locales: the arguments every call must supply), .tags {comp: html tag},
             .const (True when every locale holds a literal of one type: the const accessor chain exists)
@@ -147,6 +151,8 @@ class PKey:
         vs, cs = set(), set()
         self.range_type = None
         for v in self.values.values():
+            if v[0] in ("absent", "null"):
+                continue
             if v[0] == "str":
                 names_of(v[1], vs, cs)
             elif v[0] == "range":
@@ -160,6 +166,8 @@ class PKey:
         self.tags = {c: rng.choice(TAGS) for c in self.comps}
         kinds = set()
         for v in self.values.values():
+            if v[0] in ("absent", "null"):
+                continue
             if v[0] == "lit":
                 kinds.add("bool" if isinstance(v[1], bool) else "int" if v[1] < 0 else "uint")
             elif v[0] == "range":
@@ -175,8 +183,21 @@ class Project:
     pass
 
 
-def gen_project(rng, n_keys, locales, namespaces=None, wide=False):
+def effective_locale(project, key, loc):
+    """the inherits walk (for reports; the verdict recomputes it in Coq)"""
+    seen = set()
+    while key.values[loc][0] in ("absent", "null"):
+        seen.add(loc)
+        loc = project.inherits.get(loc)
+        if loc is None or loc in seen:
+            return project.locales[0]
+    return loc
+
+
+def gen_project(rng, n_keys, locales, namespaces=None, wide=False, inherits=None, gaps=True):
     p = Project()
+    p.inherits = dict(inherits or {})
+    p.group_null = set()
     p.locales = list(locales)
     p.namespaces = list(namespaces) if namespaces else None
     p.keys = []
@@ -213,8 +234,32 @@ def gen_project(rng, n_keys, locales, namespaces=None, wide=False):
                 k.values[loc] = ("str", its)
             else:
                 k.values[loc] = ("str", gen_items(rng))
-        k.finish(rng)
         p.keys.append(k)
+    if gaps and len(p.locales) > 1:
+        # whole sub-key groups missing in a locale (absent, or written as null)
+        gpaths = sorted({k.path[:m] for k in p.keys for m in range(2 if p.namespaces else 1, len(k.path))})
+        gone = {}
+        for g in gpaths:
+            for loc in p.locales[1:]:
+                if rng.random() < 0.12:
+                    gone[(loc, g)] = rng.random() < 0.5
+        for k in p.keys:
+            for loc in p.locales[1:]:
+                hit = [g for (l, g) in gone if l == loc and k.path[:len(g)] == g]
+                if hit:
+                    k.values[loc] = ("absent",)
+                    continue
+                r = rng.random()
+                if r < 0.22:
+                    k.values[loc] = ("absent",)
+                elif r < 0.36:
+                    k.values[loc] = ("null",)
+        for (loc, g), as_null in gone.items():
+            # only the outermost missing group is written as null
+            if as_null and not any((loc, g[:m]) in gone for m in range(1, len(g))):
+                p.group_null.add((loc, g))
+    for k in p.keys:
+        k.finish(rng)
     return p
 
 
@@ -235,11 +280,26 @@ def _tree(project, loc, ns):
             if path[0] != ns:
                 continue
             path = path[1:]
+        v = k.values[loc]
+        if v[0] == "absent":
+            continue
         d = root
         for seg in path[:-1]:
             d = d.setdefault(seg, {})
-        v = k.values[loc]
-        d[path[-1]] = v[1] if v[0] == "lit" else range_json(v) if v[0] == "range" else parsegen.print_items(v[1])
+        d[path[-1]] = (None if v[0] == "null" else v[1] if v[0] == "lit" else range_json(v) if v[0] == "range"
+                       else parsegen.print_items(v[1]))
+    for (l, g) in project.group_null:
+        if l != loc:
+            continue
+        g2 = g
+        if project.namespaces:
+            if g[0] != ns:
+                continue
+            g2 = g[1:]
+        d = root
+        for seg in g2[:-1]:
+            d = d.setdefault(seg, {})
+        d[g2[-1]] = None
     return root
 
 
@@ -376,6 +436,8 @@ def write_crate(d, project, assignments=2):
                 deps, profile, json.dumps(project.locales[0]), json.dumps(project.locales)))
     if project.namespaces:
         toml += "namespaces = %s\n" % json.dumps(project.namespaces)
+    if project.inherits:
+        toml += "inherits = { %s }\n" % ", ".join("%s = %s" % (json.dumps(k), json.dumps(v)) for k, v in project.inherits.items())
     with open(os.path.join(d, "Cargo.toml"), "w") as fh:
         fh.write(toml)
     shutil.copy(os.path.join(core.HARNESS, "Cargo.lock"), os.path.join(d, "Cargo.lock"))
